@@ -16,7 +16,15 @@ void vfd_list(void);
 static long long *g_vals; static int g_nvals, g_pos; static int g_random; static unsigned long long g_rng; static long long g_lo, g_hi;
 static int g_exhausted;
 static unsigned long long rng_next(void) { g_rng ^= g_rng << 13; g_rng ^= g_rng >> 7; g_rng ^= g_rng << 17; return g_rng; }
+static int g_mutate;
 long long vfd_next_value(void) {
+  if (g_mutate) {   /* witness-seeded vectors: the solver's witness inputs, each perturbed with probability 1/4 by a small delta */
+    long long v;
+    if (g_pos < g_nvals) v = g_vals[g_pos]; else { unsigned long long span = (unsigned long long)(g_hi - g_lo + 1); v = g_lo + (long long)(rng_next() % span); }
+    g_pos++;
+    if (g_mutate > 1 && (rng_next() & 3) == 0) { static const int d[4] = {-2, -1, 1, 2}; v += d[rng_next() & 3]; }
+    return v;
+  }
   if (g_random) { unsigned long long span = (unsigned long long)(g_hi - g_lo + 1); return g_lo + (long long)(rng_next() % span); }
   if (g_pos < g_nvals) return g_vals[g_pos++];
   g_exhausted = 1; return 0;
@@ -42,6 +50,19 @@ int main(int argc, char **argv) {
     g_nvals = argc - 3; g_vals = calloc(g_nvals + 1, sizeof *g_vals);
     for (int i = 0; i < g_nvals; i++) g_vals[i] = strtoll(argv[3 + i], 0, 10);
     run_one(f); return 0;
+  }
+  if (!strcmp(argv[1], "mutate") && argc >= 7) {   /* mutate <entry> <seed> <count> <lo> <hi> v0 v1 ... */
+    unsigned long long seed = strtoull(argv[3], 0, 10); int count = atoi(argv[4]); g_lo = atoll(argv[5]); g_hi = atoll(argv[6]);
+    g_nvals = argc - 7; g_vals = calloc(g_nvals + 1, sizeof *g_vals);
+    for (int i = 0; i < g_nvals; i++) g_vals[i] = strtoll(argv[7 + i], 0, 10);
+    for (int i = 0; i < count; i++) {
+      printf("V %d\n", i); fflush(stdout);
+      pid_t p = fork();
+      if (p == 0) { g_mutate = i == 0 ? 1 : 2; g_rng = (seed + 0x9E3779B97F4A7C15ULL) * (unsigned long long)(i + 1) | 1ULL; rng_next(); rng_next(); run_one(f); _exit(0); }
+      int st; waitpid(p, &st, 0);
+      if (WIFSIGNALED(st)) printf("S %d\n", WTERMSIG(st));
+    }
+    return 0;
   }
   if (!strcmp(argv[1], "random") && argc >= 7) {
     unsigned long long seed = strtoull(argv[3], 0, 10); int count = atoi(argv[4]); g_lo = atoll(argv[5]); g_hi = atoll(argv[6]);
